@@ -11,8 +11,8 @@ use sv_parser::*;
 
 pub fn cases(tier: Tier) -> u64 {
     match tier {
-        Tier::Quick => 4000,
-        Tier::Thorough => 100000,
+        Tier::Quick => 24000,
+        Tier::Thorough => 400000,
         Tier::Tiny => 32,
     }
 }
